@@ -137,6 +137,79 @@ func genLazy(g *vlib.G) {
 			return ""
 		})
 	})
+	g.Case("unit.NewDimension of the same symbol from 2 goroutines", func(t *vlib.T) {
+		var okCount, panics int
+		body := func() {
+			symCounter++
+			sym := fmt.Sprintf("vdup%d", symCounter)
+			okCount, panics = 0, 0
+			var wg sync.WaitGroup
+			wg.Add(2)
+			for k := 0; k < 2; k++ {
+				go func() {
+					defer wg.Done()
+					defer func() {
+						if recover() != nil {
+							vlib.Atomically(func() { panics++ })
+						}
+					}()
+					unit.NewDimension(sym)
+					vlib.Atomically(func() { okCount++ })
+				}()
+			}
+			wg.Wait()
+		}
+		explore(t, g, true, body, func(x *vsched.Exec) string {
+			if okCount != 1 || panics != 1 {
+				return fmt.Sprintf("registering one new symbol twice: %d calls succeeded and %d panicked; documented: exactly one succeeds, the other panics", okCount, panics)
+			}
+			return ""
+		})
+	})
+	g.Case("card sketches restored from bytes, written from 2 goroutines", func(t *vlib.T) {
+		// each goroutine restores its own sketch into a zero receiver (the hash comes from the registry)
+		// and keeps writing to it; the hash's Write is a user callback with a scheduling point.
+		card.RegisterHash(func() hash.Hash32 { return &pointHash32{Hash32: fnv.New32a()} })
+		h0, err := card.NewHyperLogLog32(4, &pointHash32{Hash32: fnv.New32a()})
+		if err != nil {
+			panic(err)
+		}
+		h0.Write([]byte("seed"))
+		enc, err := h0.MarshalBinary()
+		if err != nil {
+			panic(err)
+		}
+		words := [2][]string{{"a", "bb", "ccc", "dddd"}, {"zz", "y", "xxxx", "www"}}
+		serial := func(k int) float64 {
+			var h card.HyperLogLog32
+			if err := h.UnmarshalBinary(enc); err != nil {
+				panic(err)
+			}
+			for _, w := range words[k] {
+				h.Write([]byte(w))
+			}
+			return h.Count()
+		}
+		want := [2]float64{serial(0), serial(1)}
+		var got [2]float64
+		body := func() {
+			var wg sync.WaitGroup
+			wg.Add(2)
+			for k := 0; k < 2; k++ {
+				k := k
+				go func() { defer wg.Done(); got[k] = serial(k) }()
+			}
+			wg.Wait()
+		}
+		explore(t, g, false, body, func(x *vsched.Exec) string {
+			for k := 0; k < 2; k++ {
+				if got[k] != want[k] {
+					return fmt.Sprintf("sketch %d restored from bytes counts %v when another restored sketch is written concurrently, %v alone", k, got[k], want[k])
+				}
+			}
+			return ""
+		})
+	})
 	g.Case("unit.NewDimension || Dimension.String", func(t *vlib.T) {
 		var names [2]string
 		var want [2]string
@@ -166,4 +239,12 @@ func genLazy(g *vlib.G) {
 			return ""
 		})
 	})
+}
+
+// pointHash32 is a user hash whose Write is a scheduling point (a user callback).
+type pointHash32 struct{ hash.Hash32 }
+
+func (p *pointHash32) Write(b []byte) (int, error) {
+	point("hash.Write")
+	return p.Hash32.Write(b)
 }
